@@ -174,11 +174,144 @@ Proof.
   split; [apply child_finish_view | exact IH].
 Qed.
 
+(* ---- caches do not matter for filters, lengths and refresh-time values -- *)
+Definition same_core (a b : level) : Prop :=
+  l_cfg a = l_cfg b /\ l_filt a = l_filt b /\ l_len a = l_len b
+  /\ l_data a = l_data b.
+
+Lemma same_core_refl a : same_core a a.
+Proof. repeat split. Qed.
+
+Lemma same_core_set_cache a c : same_core a (set_cache a c).
+Proof. repeat split. Qed.
+
+Lemma core_refl ls : Forall2 same_core ls ls.
+Proof. induction ls; constructor; [apply same_core_refl|assumption]. Qed.
+
+Lemma core_trans ls1 : forall ls2 ls3,
+  Forall2 same_core ls1 ls2 -> Forall2 same_core ls2 ls3 ->
+  Forall2 same_core ls1 ls3.
+Proof.
+  induction ls1 as [|a ls1 IH]; intros ls2 ls3 H1 H2; inversion H1; subst;
+    inversion H2; subst; constructor.
+  - destruct H3 as [A1 [A2 [A3 A4]]]. destruct H4 as [B1 [B2 [B3 B4]]].
+    repeat split; congruence.
+  - eapply IH; eassumption.
+Qed.
+
+Lemma propagate_core : forall ls acc, Forall2 same_core ls (propagate acc ls).
+Proof.
+  induction ls as [|l ps IH]; intros acc; [constructor|].
+  cbn [propagate]. constructor; [apply same_core_set_cache|apply IH].
+Qed.
+
+Lemma read_core : forall ls s, Forall2 same_core ls (snd (read ls s)).
+Proof.
+  induction ls as [|c ps IH]; intros s; [constructor|].
+  destruct ps as [|p ps'].
+  - cbn. constructor; [apply same_core_refl|constructor].
+  - change (read (c :: p :: ps') s) with
+      (match nth s (l_cache c) None with
+       | Some d => (Some d, c :: p :: ps')
+       | None =>
+           let '(v, ps1) := read (p :: ps') s in
+           match v, p :: ps' with
+           | Some pd, p0 :: _ =>
+               let d := select (f_all (l_filt p0)) pd in
+               (Some d, set_cache c (set_nth s (Some d) (l_cache c)) :: ps1)
+           | _, _ => (None, c :: ps1)
+           end
+       end).
+    destruct (nth s (l_cache c) None); [apply core_refl|].
+    pose proof (IH s) as IH'.
+    destruct (read (p :: ps') s) as [v ps1]. cbn [snd] in IH'.
+    destruct v; cbn [snd]; constructor; try assumption;
+      [apply same_core_set_cache|apply same_core_refl].
+Qed.
+
+Lemma core_app xs xs' ys ys' :
+  Forall2 same_core xs xs' -> Forall2 same_core ys ys' ->
+  Forall2 same_core (xs ++ ys) (xs' ++ ys').
+Proof. apply Forall2_app. Qed.
+
+Lemma read_at_core ls pos s : Forall2 same_core ls (snd (read_at ls pos s)).
+Proof.
+  unfold read_at. pose proof (read_core (skipn pos ls) s) as H.
+  destruct (read (skipn pos ls) s) as [v suf]. cbn [snd] in *.
+  rewrite <- (firstn_skipn pos ls) at 1.
+  apply core_app; [apply core_refl|exact H].
+Qed.
+
+Lemma read_slots_core : forall k ls pos s,
+  Forall2 same_core ls (snd (read_slots ls pos s k)).
+Proof.
+  induction k as [|k IH]; intros ls pos s; [apply core_refl|].
+  cbn [read_slots]. pose proof (read_at_core ls pos s) as H1.
+  destruct (read_at ls pos s) as [v ls1]. cbn [snd] in H1.
+  pose proof (IH ls1 pos (S s)) as H2.
+  destruct (read_slots ls1 pos (S s) k) as [out ls2]. cbn [snd] in *.
+  eapply core_trans; eassumption.
+Qed.
+
+Lemma observe_core img : forall k ls,
+  Forall2 same_core ls (snd (observe img ls k)).
+Proof.
+  induction k as [|k IH]; intros ls; [apply core_refl|].
+  cbn [observe]. pose proof (read_slots_core NSLOT ls k 0) as H1.
+  destruct (read_slots ls k 0 NSLOT) as [cols ls1]. cbn [snd] in H1.
+  pose proof (IH ls1) as H2.
+  destruct (observe img ls1 k) as [out2 ls2]. cbn [snd] in *.
+  eapply core_trans; eassumption.
+Qed.
+
+Lemma view_ok_core : forall ls ls',
+  Forall2 same_core ls ls' -> view_ok ls -> view_ok ls'.
+Proof.
+  induction ls as [|c ps IH]; intros ls' H Hv; inversion H as [|? c' ? ps1 Hc Hps];
+    subst; [exact I|].
+  destruct ps as [|p ps']; inversion Hps as [|? p' ? ps2 Hp Hps']; subst;
+    [exact I|].
+  destruct Hv as [[V1 V2] Hv]. split; [|now apply IH].
+  destruct Hc as [_ [C2 [C3 C4]]]. destruct Hp as [_ [P2 [P3 P4]]].
+  unfold view_of. now rewrite <- C3, <- C4, <- P2, <- P4.
+Qed.
+
+Lemma refresh_core ls : Forall2 same_core (refresh_up ls) (refresh ls).
+Proof. apply propagate_core. Qed.
+
+(* what the three modes of operation 3 do to everything but the caches *)
+Lemma step3_core st a b c d :
+  Forall2 same_core
+          (if (a =? 0) || (a =? 1) then refresh_up (s_levels st)
+           else s_levels st)
+          (s_levels (fst (step st (3, a, b, c, d)))).
+Proof.
+  unfold step. cbn [Z.eqb Pos.eqb].
+  destruct (a =? 0) eqn:E0.
+  { cbn [orb].
+    pose proof (observe_core (s_img st) (length (s_levels st))
+                             (refresh (s_levels st))) as H.
+    destruct (observe (s_img st) (refresh (s_levels st))
+                      (length (s_levels st))) as [out ls'].
+    cbn [fst snd s_levels] in *.
+    eapply core_trans; [apply refresh_core|exact H]. }
+  destruct (a =? 1) eqn:E1.
+  { cbn [orb fst s_levels]. apply refresh_core. }
+  cbn [orb]. destruct (a =? 2).
+  - pose proof (read_at_core (s_levels st) (pos_of (s_levels st) b)
+                             (Z.to_nat (c mod 5))) as H.
+    destruct (read_at (s_levels st) (pos_of (s_levels st) b)
+                      (Z.to_nat (c mod 5))) as [v ls'].
+    exact H.
+  - apply core_refl.
+Qed.
+
 Theorem grow_view : forall ls, view_ok (grow ls).
 Proof.
   intros ls; unfold grow.
   pose proof (refresh_view ls) as H.
   destruct (refresh_up ls) as [|p ps]; [exact I|].
+  eapply view_ok_core; [apply propagate_core|].
   split; [apply new_child_view | exact H].
 Qed.
 
@@ -188,8 +321,13 @@ Qed.
    selected events -- whatever happened before (any state [st]) *)
 Theorem rejuvenate_child_is_view :
   forall st : state,
-    view_ok (s_levels (fst (step st (3, 0, 0, 0, 0)))).
-Proof. intros st; cbn. apply refresh_view. Qed.
+    view_ok (s_levels (fst (step st (3, 0, 0, 0, 0))))
+    /\ view_ok (s_levels (fst (step st (3, 1, 0, 0, 0)))).
+Proof.
+  intros st; split.
+  - eapply view_ok_core; [apply (step3_core st 0 0 0 0)|]. apply refresh_view.
+  - eapply view_ok_core; [apply (step3_core st 1 0 0 0)|]. apply refresh_view.
+Qed.
 
 (* composed over the depth: the columns of the youngest are the root's
    columns restricted successively by every ancestor's filter *)
@@ -535,6 +673,15 @@ Proof.
   - destruct Hs as [_ [_ Hr]]. unfold hash_inv in *. now rewrite Hr, Hp.
 Qed.
 
+Lemma linv_core ls : forall ls' gs,
+  Forall2 same_core ls ls' -> Forall2 linv gs ls -> Forall2 linv gs ls'.
+Proof.
+  induction ls as [|l ls IH]; intros ls' gs H Hg; inversion H; subst;
+    inversion Hg; subst; constructor.
+  - destruct H2 as [_ [F _]]. unfold linv in *. now rewrite <- F.
+  - now apply IH.
+Qed.
+
 Lemma linv_filter_update g l : linv g l -> linv g (filter_update l).
 Proof.
   unfold linv. apply finv_same; [repeat split|reflexivity].
@@ -678,7 +825,8 @@ Proof.
   pose proof (refresh_up_length ls) as Hl.
   destruct (refresh_up ls) as [|p ps].
   - destruct ls; [congruence|simpl in Hl; discriminate].
-  - constructor; [|exact H'].
+  - eapply linv_core; [apply propagate_core|].
+    constructor; [|exact H'].
     inversion H'; subst. apply new_child_inv. eapply linv_NoDup; eassumption.
 Qed.
 
@@ -795,7 +943,7 @@ Proof.
   destruct (Forall2_firstn_skipn _ _ _ pos H1) as [Ha Hb].
   rewrite <- (firstn_skipn pos gs).
   apply Forall2_app; [exact Ha|].
-  now apply refresh_up_inv.
+  eapply linv_core; [apply refresh_core|]. now apply refresh_up_inv.
 Qed.
 
 Theorem step_inv st gs op :
@@ -803,6 +951,10 @@ Theorem step_inv st gs op :
   Forall2 linv (spec_step st gs op) (s_levels (fst (step st op))).
 Proof.
   intros H. destruct op as [[[[tag a] b] c] d].
+  destruct (Z.eqb_spec tag 3) as [->|N3].
+  { change (spec_step st gs (3, a, b, c, d)) with gs.
+    eapply linv_core; [apply step3_core|].
+    destruct ((a =? 0) || (a =? 1)); [now apply refresh_up_inv|exact H]. }
   unfold step, spec_step.
   destruct (Z.eqb_spec tag 0) as [->|N0].
   { cbn [Z.eqb Pos.eqb fst s_levels].
@@ -821,8 +973,7 @@ Proof.
     destruct (set_temp (s_levels st) (pos_of (s_levels st) a)
                        (3 + Z.to_nat (b mod 2)) c) as [ls' e].
     exact Ht. }
-  destruct (Z.eqb_spec tag 3) as [->|N3].
-  { cbn [Z.eqb Pos.eqb fst s_levels]. now apply refresh_up_inv. }
+  destruct (Z.eqb_spec tag 3) as [E3|_]; [now elim N3|].
   destruct (Z.eqb_spec tag 4) as [->|N4].
   { cbn [Z.eqb Pos.eqb fst s_levels].
     apply upd_level_inv; [|exact H]. intros g l Hl. exact Hl. }
@@ -938,12 +1089,25 @@ Proof.
   - exact Hr.
 Qed.
 
+Lemma rids_ok_core : forall ls ls',
+  Forall2 same_core ls ls' -> rids_ok ls -> rids_ok ls'.
+Proof.
+  induction ls as [|c ps IH]; intros ls' H Hv; inversion H as [|? c' ? ps1 Hc Hps];
+    subst; [exact I|].
+  destruct ps as [|p ps']; inversion Hps as [|? p' ? ps2 Hp Hps']; subst;
+    [exact I|].
+  destruct Hv as [V Hv]. split; [|now apply IH].
+  destruct Hc as [_ [C2 _]]. destruct Hp as [_ [P2 _]].
+  now rewrite <- C2, <- P2.
+Qed.
+
 Theorem history_rids_after_rejuvenate :
   forall n cols ops st gs,
     spec_run (init n cols) [mkghost [] []] ops = (st, gs) ->
-    rids_ok (s_levels (fst (step st (3, 0, 0, 0, 0)))).
+    rids_ok (s_levels (fst (step st (3, 1, 0, 0, 0)))).
 Proof.
-  intros n cols ops st gs Hr. cbn.
+  intros n cols ops st gs Hr.
+  eapply rids_ok_core; [apply (step3_core st 1 0 0 0)|].
   eapply refresh_rids. eapply run_inv; [apply init_inv|exact Hr].
 Qed.
 
@@ -1278,10 +1442,20 @@ Proof.
   - apply Forall_repeat. exact I.
 Qed.
 
+Lemma lwf_core ls : forall ls',
+  Forall2 same_core ls ls' -> Forall lwf ls -> Forall lwf ls'.
+Proof.
+  induction ls as [|l ls IH]; intros ls' H Hw; inversion H; subst;
+    inversion Hw; subst; constructor.
+  - destruct H2 as [_ [F [L D]]]. unfold lwf in *. now rewrite <- F, <- L, <- D.
+  - now apply IH.
+Qed.
+
 Lemma grow_wf ls : Forall lwf ls -> Forall lwf (grow ls).
 Proof.
   intros H. unfold grow. pose proof (refresh_up_wf ls H) as H'.
   destruct (refresh_up ls) as [|p ps]; [constructor|].
+  eapply lwf_core; [apply propagate_core|].
   inversion H'; subst. constructor; [now apply new_child_wf|exact H'].
 Qed.
 
@@ -1366,7 +1540,8 @@ Proof.
   destruct anc; [exact H1|]. cbn [fst].
   rewrite <- (firstn_skipn pos (set_root_data ls slot full)) in H1.
   apply Forall_app in H1. destruct H1 as [Ha Hb].
-  apply Forall_app. split; [exact Ha|now apply refresh_up_wf].
+  apply Forall_app. split; [exact Ha|].
+  eapply lwf_core; [apply refresh_core|]. now apply refresh_up_wf.
 Qed.
 
 Lemma set_cfg_wf l c : lwf l -> lwf (set_cfg l c).
@@ -1375,7 +1550,11 @@ Proof. intros H; exact H. Qed.
 Theorem step_wf st op :
   Forall lwf (s_levels st) -> Forall lwf (s_levels (fst (step st op))).
 Proof.
-  intros H. destruct op as [[[[tag a] b] c] d]. unfold step.
+  intros H. destruct op as [[[[tag a] b] c] d].
+  destruct (Z.eqb_spec tag 3) as [->|N3].
+  { eapply lwf_core; [apply step3_core|].
+    destruct ((a =? 0) || (a =? 1)); [now apply refresh_up_wf|exact H]. }
+  unfold step.
   destruct (tag =? 0).
   { cbn [fst s_levels]. apply upd_level_wf; [|exact H]. intros l Hl; exact Hl. }
   destruct (tag =? 1).
@@ -1387,8 +1566,7 @@ Proof.
     destruct (set_temp (s_levels st) (pos_of (s_levels st) a)
                        (3 + Z.to_nat (b mod 2)) c) as [ls' e].
     exact Ht. }
-  destruct (tag =? 3).
-  { cbn [fst s_levels]. now apply refresh_up_wf. }
+  destruct (Z.eqb_spec tag 3) as [E3|_]; [now elim N3|].
   destruct (tag =? 4).
   { cbn [fst s_levels]. apply upd_level_wf; [|exact H]. intros l Hl; exact Hl. }
   destruct (tag =? 5).
@@ -1597,6 +1775,32 @@ Proof.
   - exact IH.
 Qed.
 
+Lemma root_ok_core n : forall ls ls',
+  Forall2 same_core ls ls' -> root_ok n ls -> root_ok n ls'.
+Proof.
+  induction ls as [|c ps IH]; intros ls' H Hv; inversion H as [|? c' ? ps1 Hc Hps];
+    subst; [exact I|].
+  destruct ps as [|p ps']; inversion Hps as [|? p' ? ps2 Hp Hps']; subst.
+  - destruct Hc as [_ [C2 _]]. simpl in *. now rewrite <- C2.
+  - apply (IH (p' :: ps2)); [exact Hps|exact Hv].
+Qed.
+
+Lemma ids_ok_core n ls ls' :
+  Forall2 same_core ls ls' -> ids_ok n ls -> ids_ok n ls'.
+Proof.
+  intros H [Hr Ho]. split; [|eapply root_ok_core; eassumption].
+  clear Ho. induction H as [|a b ls ls' Hab H IH]; [constructor|].
+  inversion Hr; subst. constructor; [|now apply IH].
+  destruct Hab as [_ [F _]]. unfold in_range in *. now rewrite <- F.
+Qed.
+
+Lemma refresh_length ls : length (refresh ls) = length ls.
+Proof.
+  rewrite <- (refresh_up_length ls). symmetry.
+  generalize (refresh_core ls). generalize (refresh_up ls) (refresh ls).
+  induction 1; simpl; congruence.
+Qed.
+
 Lemma set_temp_ids n ls pos slot seed :
   ids_ok n ls -> ids_ok n (fst (set_temp ls pos slot seed)).
 Proof.
@@ -1622,17 +1826,19 @@ Proof.
   rewrite <- (firstn_skipn pos ls1) in Hr, Ho.
   apply Forall_app in Hr. destruct Hr as [Ha Hb].
   apply (root_ok_app n _ _ Hne) in Ho.
-  destruct (refresh_up_ids n _ (conj Hb Ho)) as [Hb' Ho'].
+  destruct (ids_ok_core n _ _ (refresh_core _)
+                        (refresh_up_ids n _ (conj Hb Ho))) as [Hb' Ho'].
   split; [apply Forall_app; now split|].
   apply root_ok_app; [|exact Ho'].
   intros Hn. apply (f_equal (@length level)) in Hn.
-  rewrite refresh_up_length in Hn. destruct (skipn pos ls1); [congruence|discriminate].
+  rewrite refresh_length in Hn. destruct (skipn pos ls1); [congruence|discriminate].
 Qed.
 
 Lemma grow_ids n ls : ids_ok n ls -> ids_ok n (grow ls).
 Proof.
   intros H. unfold grow. destruct (refresh_up_ids n ls H) as [Hr Ho].
   destruct (refresh_up ls) as [|p ps]; [split; [constructor|exact I]|].
+  eapply ids_ok_core; [apply propagate_core|].
   split; [|exact Ho].
   constructor; [|exact Hr].
   inversion Hr as [|? ? Hp _]; subst.
@@ -1642,7 +1848,11 @@ Qed.
 Theorem step_ids n st op :
   ids_ok n (s_levels st) -> ids_ok n (s_levels (fst (step st op))).
 Proof.
-  intros H. destruct op as [[[[tag a] b] c] d]. unfold step.
+  intros H. destruct op as [[[[tag a] b] c] d].
+  destruct (Z.eqb_spec tag 3) as [->|N3].
+  { eapply ids_ok_core; [apply step3_core|].
+    destruct ((a =? 0) || (a =? 1)); [now apply refresh_up_ids|exact H]. }
+  unfold step.
   destruct (tag =? 0).
   { cbn [fst s_levels]. apply upd_level_ids; [reflexivity|exact H]. }
   destruct (tag =? 1).
@@ -1654,8 +1864,7 @@ Proof.
     destruct (set_temp (s_levels st) (pos_of (s_levels st) a)
                        (3 + Z.to_nat (b mod 2)) c) as [ls' e].
     exact Ht. }
-  destruct (tag =? 3).
-  { cbn [fst s_levels]. now apply refresh_up_ids. }
+  destruct (Z.eqb_spec tag 3) as [E3|_]; [now elim N3|].
   destruct (tag =? 4).
   { cbn [fst s_levels]. apply upd_level_ids; [reflexivity|exact H]. }
   destruct (tag =? 5).
@@ -1748,8 +1957,11 @@ Proof.
     eapply run_inv; [apply init_inv|exact Es]. }
   assert (Hids : ids_ok n (s_levels st)).
   { apply step_ids, run_ids, init_ids. }
-  assert (Hr : rids_ok (s_levels st)) by (eapply refresh_rids; exact Hinv).
-  assert (Hv : view_ok (s_levels st)) by apply rejuvenate_child_is_view.
+  assert (Hr : rids_ok (s_levels st)).
+  { eapply rids_ok_core; [apply (step3_core st0 0 0 0 0)|].
+    eapply refresh_rids; exact Hinv. }
+  assert (Hv : view_ok (s_levels st))
+    by apply (proj1 (rejuvenate_child_is_view st0)).
   destruct Hids as [Hrange Ho].
   destruct (skipn_suffix_props n k _ c anc E Hr Hv Ho) as [Hr' [Hv' Ho']].
   assert (Hin : In c (s_levels st)).
@@ -1757,8 +1969,9 @@ Proof.
   split; [|split; [|split]].
   - now apply (rids_compose n).
   - now apply view_composes_to_root.
-  - pose proof (refresh_up_inv _ _ Hinv) as Hinv'.
-    change (refresh_up (s_levels st0)) with (s_levels st) in Hinv'.
+  - pose proof (linv_core _ _ _ (step3_core st0 0 0 0 0)
+                          (refresh_up_inv _ _ Hinv)) as Hinv'.
+    fold st in Hinv'.
     destruct (In_nth_error _ _ Hin) as [j Hj].
     destruct (Forall2_nth_error _ _ _ _ _ Hinv' Hj) as [g [_ Hg]].
     eapply linv_NoDup; exact Hg.
@@ -1826,19 +2039,43 @@ Qed.
 (* ======================================================================== *)
 (* 9. Sibling children: two branches below shared ancestors                  *)
 (* ======================================================================== *)
+Lemma sib_step_chain_a s a b c d :
+  let s' := fst (sib_step s (3, a, b, c, d)) in
+  sb_a s' ++ sb_anc s'
+  = s_levels (fst (step (mkstate (sb_a s ++ sb_anc s) (sb_img s)) (3, a, b, c, d))).
+Proof.
+  cbv zeta. unfold sib_step.
+  change (3 / 10) with 0. change (3 mod 10) with 3.
+  cbn [Z.eqb Pos.eqb].
+  destruct (step (mkstate (sb_a s ++ sb_anc s) (sb_img s)) (3, a, b, c, d))
+    as [st' out].
+  cbn [fst sb_a sb_anc s_levels]. apply firstn_skipn.
+Qed.
+
+Lemma sib_step_chain_b s a b c d :
+  let s' := fst (sib_step s (13, a, b, c, d)) in
+  sb_b s' ++ sb_anc s'
+  = s_levels (fst (step (mkstate (sb_b s ++ sb_anc s) (sb_img s)) (3, a, b, c, d))).
+Proof.
+  cbv zeta. unfold sib_step.
+  change (13 / 10) with 1. change (13 mod 10) with 3.
+  cbn [Z.eqb Pos.eqb].
+  destruct (step (mkstate (sb_b s ++ sb_anc s) (sb_img s)) (3, a, b, c, d))
+    as [st' out].
+  cbn [fst sb_b sb_anc s_levels]. apply firstn_skipn.
+Qed.
+
 Theorem sib_rejuvenate_view (s : sib) :
-  (let s' := fst (sib_step s (3, 0, 0, 0, 0)) in
+  (let s' := fst (sib_step s (3, 1, 0, 0, 0)) in
    view_ok (sb_a s' ++ sb_anc s'))
-  /\ (let s' := fst (sib_step s (13, 0, 0, 0, 0)) in
+  /\ (let s' := fst (sib_step s (13, 1, 0, 0, 0)) in
       view_ok (sb_b s' ++ sb_anc s')).
 Proof.
-  split; cbv zeta; unfold sib_step.
-  - change (3 / 10) with 0. change (3 mod 10) with 3.
-    cbn [Z.eqb Pos.eqb step fst s_levels sb_a sb_anc s_img].
-    rewrite firstn_skipn. apply refresh_view.
-  - change (13 / 10) with 1. change (13 mod 10) with 3.
-    cbn [Z.eqb Pos.eqb step fst s_levels sb_b sb_anc s_img].
-    rewrite firstn_skipn. apply refresh_view.
+  split; cbv zeta.
+  - rewrite (sib_step_chain_a s 1 0 0 0).
+    apply (proj2 (rejuvenate_child_is_view _)).
+  - rewrite (sib_step_chain_b s 1 0 0 0).
+    apply (proj2 (rejuvenate_child_is_view _)).
 Qed.
 
 Lemma Forall2_app_split {A B} (R : A -> B -> Prop) xs : forall xs' ys ys',
@@ -1932,3 +2169,238 @@ Example ex_sib :
   = ([[true; true; true; true; true]], [[true; false; true; true; true]],
      [[2; 3; 4; 5; 6]], [[1]], [[3]]).
 Proof. vm_compute. reflexivity. Qed.
+
+
+(* ======================================================================== *)
+(* 10. The lazy feature caches (`_events`, ChildScalar._array)              *)
+(* ======================================================================== *)
+(* [l_cache] is filled by reads at arbitrary moments and emptied only by
+   apply_filter.  A chain is coherent when every cached array of a child is
+   the value the feature had at the child's refresh and every child is a
+   view of its parent: then a read at any level, cached or not, returns the
+   parent's read restricted to the parent's filter. *)
+Definition cache_ok (l : level) : Prop :=
+  forall s d, nth s (l_cache l) None = Some d -> nth s (l_data l) None = Some d.
+
+Fixpoint coh (ls : list level) : Prop :=
+  match ls with
+  | c :: ps => match ps with
+               | p :: _ => cache_ok c /\ view_of c p /\ coh ps
+               | [] => True
+               end
+  | [] => True
+  end.
+
+Lemma nth_repeat_none {A} s n : nth s (repeat (@None A) n) None = None.
+Proof.
+  revert s; induction n as [|n IH]; intros [|s]; simpl; try reflexivity. apply IH.
+Qed.
+
+Lemma fill_reads_ok reads rminv : forall data cache,
+  (forall s d, nth s cache None = Some d -> nth s data None = Some d) ->
+  forall s d, nth s (fill_reads reads rminv data cache) None = Some d ->
+              nth s data None = Some d.
+Proof.
+  revert reads. intros reads data; revert reads.
+  induction data as [|x data IH]; intros reads cache H s d Hn.
+  - destruct cache; simpl in Hn; now apply H.
+  - destruct cache as [|y cache]; [simpl in Hn; now apply H|].
+    cbn [fill_reads] in Hn. destruct s as [|s].
+    + simpl in *. destruct x as [xd|]; [|now apply (H 0%nat)].
+      destruct (rminv || hd false reads); [exact Hn|now apply (H 0%nat)].
+    + simpl in *. apply (IH (tl reads) cache); [|exact Hn].
+      intros s' d' Hs'. exact (H (S s') d' Hs').
+Qed.
+
+Lemma fill_acc_ok acc : forall data cache,
+  (forall s d, nth s cache None = Some d -> nth s data None = Some d) ->
+  forall s d, nth s (fill_acc acc data cache) None = Some d ->
+              nth s data None = Some d.
+Proof.
+  intros data; revert acc.
+  induction data as [|x data IH]; intros acc cache H s d Hn.
+  - destruct cache; simpl in Hn; now apply H.
+  - destruct cache as [|y cache]; [simpl in Hn; now apply H|].
+    cbn [fill_acc] in Hn. destruct s as [|s].
+    + simpl in *. destruct y as [yd|]; [now apply (H 0%nat)|].
+      destruct (hd false acc); [exact Hn|discriminate].
+    + simpl in *. apply (IH (tl acc) cache); [|exact Hn].
+      intros s' d' Hs'. exact (H (S s') d' Hs').
+Qed.
+
+(* apply_filter empties the cache; what Filter.update reads afterwards is
+   what the refresh computed *)
+Lemma filter_update_cache_ok l : cache_ok l -> cache_ok (filter_update l).
+Proof.
+  intros H s d Hn. unfold filter_update in Hn.
+  cbn [l_cache l_data set_filt set_cache] in *.
+  eapply fill_reads_ok; [exact H|exact Hn].
+Qed.
+
+Lemma child_finish_cache_ok c p : cache_ok (child_finish c p).
+Proof.
+  unfold child_finish. apply filter_update_cache_ok.
+  intros s d Hn. cbn [l_cache] in Hn. now rewrite nth_repeat_none in Hn.
+Qed.
+
+Lemma new_child_cache_ok p : cache_ok (new_child p).
+Proof.
+  unfold new_child. apply filter_update_cache_ok.
+  intros s d Hn. cbn [l_cache] in Hn. now rewrite nth_repeat_none in Hn.
+Qed.
+
+Lemma refresh_up_coh : forall ls, coh (refresh_up ls).
+Proof.
+  induction ls as [|c ps IH]; [exact I|].
+  destruct ps as [|p ps']; [exact I|].
+  rewrite refresh_up_cons2.
+  remember (refresh_up (p :: ps')) as R eqn:E.
+  destruct R as [|q qs]; [exact I|].
+  split; [apply child_finish_cache_ok|].
+  split; [apply child_finish_view|exact IH].
+Qed.
+
+Lemma propagate_coh : forall ls acc, coh ls -> coh (propagate acc ls).
+Proof.
+  induction ls as [|c ps IH]; intros acc H; [exact I|].
+  destruct ps as [|p ps']; [exact I|].
+  destruct H as [Hc [Hv H]].
+  cbn [propagate]. cbn [propagate] in IH.
+  split; [|split].
+  - intros s d Hn. cbn [l_cache l_data set_cache] in *.
+    eapply fill_acc_ok; [exact Hc|exact Hn].
+  - exact Hv.
+  - apply (IH _ H).
+Qed.
+
+Theorem refresh_coh ls : coh (refresh ls).
+Proof. apply propagate_coh, refresh_up_coh. Qed.
+
+Lemma read_cons2 c p ps s :
+  read (c :: p :: ps) s =
+  match nth s (l_cache c) None with
+  | Some d => (Some d, c :: p :: ps)
+  | None =>
+      let '(v, ps1) := read (p :: ps) s in
+      match v with
+      | Some pd =>
+          let d := select (f_all (l_filt p)) pd in
+          (Some d, set_cache c (set_nth s (Some d) (l_cache c)) :: ps1)
+      | None => (None, c :: ps1)
+      end
+  end.
+Proof.
+  change (read (c :: p :: ps) s) with
+      (match nth s (l_cache c) None with
+       | Some d => (Some d, c :: p :: ps)
+       | None =>
+           let '(v, ps1) := read (p :: ps) s in
+           match v, p :: ps with
+           | Some pd, p0 :: _ =>
+               let d := select (f_all (l_filt p0)) pd in
+               (Some d, set_cache c (set_nth s (Some d) (l_cache c)) :: ps1)
+           | _, _ => (None, c :: ps1)
+           end
+       end).
+  destruct (nth s (l_cache c) None); [reflexivity|].
+  destruct (read (p :: ps) s) as [[v|] ps1]; reflexivity.
+Qed.
+
+Lemma view_nth c p s :
+  view_of c p ->
+  nth s (l_data c) None
+  = option_map (select (f_all (l_filt p))) (nth s (l_data p) None).
+Proof.
+  intros [_ Hd]. rewrite Hd.
+  change (@None col) with (option_map (@select fval (f_all (l_filt p))) None) at 1.
+  apply (map_nth (option_map (@select fval (f_all (l_filt p))))).
+Qed.
+
+Lemma nth_set_nth_some {A} (l : list (option A)) i j v d :
+  nth j (set_nth i (Some v) l) None = Some d ->
+  (i = j /\ v = d) \/ nth j l None = Some d.
+Proof.
+  revert i j; induction l as [|x l IH]; intros [|i] [|j] H; simpl in *;
+    try discriminate; auto.
+  - injection H as <-. now left.
+  - destruct (IH i j H) as [[-> E]|E]; auto.
+Qed.
+
+(* on a coherent chain a read returns the refresh-time value, whatever is
+   or is not cached, and leaves the chain coherent *)
+Theorem read_coh : forall ls s,
+  coh ls ->
+  match ls with
+  | c :: _ => fst (read ls s) = nth s (l_data c) None
+  | [] => True
+  end /\ coh (snd (read ls s)).
+Proof.
+  induction ls as [|c ps IH]; intros s H; [split; exact I|].
+  destruct ps as [|p ps'].
+  - split; [reflexivity|exact I].
+  - destruct H as [Hc [Hv H]].
+    destruct (IH s H) as [IHv IHc].
+    rewrite read_cons2.
+    destruct (nth s (l_cache c) None) as [d|] eqn:En.
+    + split; [cbn [fst]; symmetry; now apply Hc|].
+      cbn [snd]. split; [exact Hc|split; assumption].
+    + pose proof (read_core (p :: ps') s) as Hcore.
+      destruct (read (p :: ps') s) as [v ps1] eqn:Er. cbn [fst snd] in *.
+      inversion Hcore as [|p0 p1 ps0 ps1' Hp Hrest E1 E2]. clear Hcore.
+      rewrite <- E2 in IHc.
+      destruct Hp as [_ [PF [PL PD]]].
+      assert (Hv1 : forall c', l_len c' = l_len c -> l_data c' = l_data c ->
+                               view_of c' p1).
+      { intros c' L D. destruct Hv as [V1 V2]. unfold view_of.
+        now rewrite L, D, <- PF, <- PD. }
+      rewrite (view_nth c p s Hv), <- IHv.
+      destruct v as [pd|]; cbn [fst snd option_map].
+      * split; [reflexivity|].
+        split; [|split; [now apply Hv1|exact IHc]].
+        intros s' d' Hn. cbn [l_cache l_data set_cache] in *.
+        destruct (nth_set_nth_some _ _ _ _ _ Hn) as [[Es Ed]|Hn'];
+          [|now apply Hc].
+        subst s' d'. rewrite (view_nth c p s Hv), <- IHv. reflexivity.
+      * split; [reflexivity|].
+        split; [exact Hc|split; [now apply Hv1|exact IHc]].
+Qed.
+
+(* every suffix of a coherent chain is coherent *)
+Lemma coh_skipn k : forall ls, coh ls -> coh (skipn k ls).
+Proof.
+  induction k as [|k IH]; intros ls H; [exact H|].
+  destruct ls as [|c ps]; [exact I|]. simpl. apply IH.
+  destruct ps; [exact I|]. destruct H as [_ [_ H]]. exact H.
+Qed.
+
+(* For every state (i.e. after any history) and right after rejuvenate of
+   the youngest member: a read of any scalar feature on any member [c] with
+   parent [p] -- through whatever the caches hold -- returns the parent's
+   read restricted to the parent's filter, and any further reads keep that
+   true (the chain stays coherent). *)
+Theorem read_after_rejuvenate_is_view :
+  forall (st : state) k c p anc s,
+    let ls := s_levels (fst (step st (3, 1, 0, 0, 0))) in
+    skipn k ls = c :: p :: anc ->
+    fst (read (c :: p :: anc) s)
+    = option_map (select (f_all (l_filt p))) (fst (read (p :: anc) s))
+    /\ coh (snd (read (c :: p :: anc) s)).
+Proof.
+  intros st k c p anc s ls E.
+  assert (Hc : coh ls) by (unfold ls; cbn; apply refresh_coh).
+  pose proof (coh_skipn k ls Hc) as Hk. rewrite E in Hk.
+  destruct (read_coh (c :: p :: anc) s Hk) as [V C].
+  split; [|exact C].
+  destruct Hk as [_ [Hv Hp]].
+  destruct (read_coh (p :: anc) s Hp) as [Vp _].
+  rewrite V, Vp. now apply view_nth.
+Qed.
+
+(* without the emptying of the cache this is false: a chain whose youngest
+   member holds an old array is not coherent and reads it back *)
+Example ex_stale_read :
+  let ops := [ (6,0,0,0,0); (2,0,0,5,0); (3,1,0,0,0); (3,2,1,3,0);
+               (2,0,0,9,0) ] in
+  let st := fst (run (init 6 ex_cols) ops) in
+  fst (read (s_levels st) 3) <> fst (read (s_levels (fst (step st (3,1,0,0,0)))) 3).
+Proof. vm_compute. discriminate. Qed.
